@@ -179,6 +179,47 @@ def faulty_delete_case(arg):
     return res
 
 
+def faulty_load_case(arg):
+    """a destructive command whose view of the snapshots is incomplete because ONE snapshot download returned wrong bytes (a
+    transient short read): it must fail, or leave every chunk referenced by a stored snapshot in place — never garbage-collect
+    the chunks of a snapshot it could not read."""
+    seed, idx = arg
+    from .. import common
+    from ..impl import runner as R
+    from ..impl.world import World
+    common.use_rebuilt_chunker()
+    r = rng_for(seed, 'C08-load', idx)
+    res = {'idx': idx, 'violations': [], 'summary': {}}
+    with R.Scratch('c08l_%d' % idx) as sc:
+        enc = r.random() < 0.7
+        w = World(sc, enc=enc, chunking=r.choice([(8, 32), (16, 64)]), concurrent=r.choice([1, 2, 5]), async_backend=False)
+        shared = r.randbytes(r.choice([40, 90, 200]))
+        a = w.snapshot(0, {'shared': shared, 'only_a': r.randbytes(r.choice([60, 150, 300]))})
+        b = w.snapshot(0, {'shared': shared, 'only_b': r.randbytes(r.choice([30, 80]))})
+        victim = w.snap_by_sid[a['sid']]['location']
+        state = {'n': 0}
+        orig = w.backend.download
+
+        def download(name):
+            data = orig(name)
+            if name == victim and state['n'] == 0:
+                state['n'] += 1
+                return data[:max(1, len(data) // 2)]       # short read, once
+            return data
+        w.backend.download = download
+        cmd = r.choice(['clean', 'delete'])
+        out = w.clean(0) if cmd == 'clean' else w.delete(0, [b['sid']])
+        w.backend.download = orig
+        need = set(w.snap_by_sid[a['sid']]['body']['chunks'])
+        have = {c for loc, (f, c) in w.chunk_names.items() if loc in w.backend.objects}
+        lost = sorted(need - have)
+        res['summary'] = {'fault': 'snapshot-short-read', 'cmd': cmd, 'enc': enc, 'error': out['error'], 'lost': len(lost), 'fault_hits': state['n']}
+        if victim in w.backend.objects and lost:
+            res['violations'].append(('gc:removed-chunks-of-unreadable-snapshot',
+                                      f'{cmd} ran while one snapshot download returned a short read (outcome: {out["error"] or "completed"}); {len(lost)} chunk(s) referenced by that still stored snapshot were removed'))
+    return res
+
+
 def run(out, drv, info):
     quick = out.tier == 'quick'
     n_hist, n_ops = (120, 12) if quick else (1000, 30)
@@ -195,11 +236,17 @@ def run(out, drv, info):
     import os
     with mp.get_context('fork').Pool(min(16, os.cpu_count() or 4)) as pool:
         fres = pool.map(faulty_delete_case, [(out.seed, i) for i in range(24 if quick else 300)], chunksize=2)
+        lres = pool.map(faulty_load_case, [(out.seed, i) for i in range(24 if quick else 300)], chunksize=2)
     for res in fres:
         out.case(res['summary'], res['summary'].get('fault') is not None)
         out.count('faulty-delete:' + str(res['summary'].get('delete_error') if res['summary'].get('fault') else 'no-exclusive-chunk'))
         for sig, what in res['violations']:
             out.violation(sig, what, {'kind': 'faulty-delete', 'seed': out.seed, 'idx': res['idx']})
+    for res in lres:
+        out.case(res['summary'], True)
+        out.count('faulty-load:%s:%s' % (res['summary'].get('cmd'), res['summary'].get('error')))
+        for sig, what in res['violations']:
+            out.violation(sig, what, {'kind': 'faulty-load', 'seed': out.seed, 'idx': res['idx']})
 
 
 def replay(path, drv):
